@@ -151,15 +151,19 @@ func buildOverlay(withTest bool, funcsByPkg map[string][]string) map[string][]by
 
 // ---------- loading ----------
 
-func loadProgram(pkgDir string) (*ssa.Program, *ssa.Package, float64) {
+func loadProgram(pkgDirs []string) (*ssa.Program, map[string]*ssa.Package, float64) {
 	t0 := time.Now()
 	cfg := &packages.Config{Mode: packages.LoadAllSyntax, Dir: repoDir, Overlay: buildOverlay(false, nil),
 		Env: append(os.Environ(), "GOFLAGS=-mod=mod", "GOPROXY=off", "GOSUMDB=off", "GOTOOLCHAIN=local")}
-	pat := "./" + pkgDir
-	if pkgDir == "." {
-		pat = "."
+	var pats []string
+	for _, d := range pkgDirs {
+		if d == "." {
+			pats = append(pats, ".")
+		} else {
+			pats = append(pats, "./"+d)
+		}
 	}
-	pkgs, err := packages.Load(cfg, pat)
+	pkgs, err := packages.Load(cfg, pats...)
 	if err != nil {
 		fatal("load: %v", err)
 	}
@@ -175,7 +179,50 @@ func loadProgram(pkgDir string) (*ssa.Program, *ssa.Package, float64) {
 	}
 	prog, spkgs := ssautil.AllPackages(pkgs, ssa.InstantiateGenerics)
 	prog.Build()
-	return prog, spkgs[0], time.Since(t0).Seconds()
+	out := map[string]*ssa.Package{}
+	for i, p := range pkgs {
+		rel, _ := filepath.Rel(repoDir, filepath.Dir(p.GoFiles[0]))
+		out[rel] = spkgs[i]
+	}
+	return prog, out, time.Since(t0).Seconds()
+}
+
+func activeKnown() map[string]bool {
+	active := map[string]bool{}
+	for _, k := range loadKnown() {
+		if k.Status == "open" {
+			active[k.ID] = true
+		}
+	}
+	return active
+}
+
+// exploreShard runs one shard of one harness in the calling goroutine
+func exploreShard(prog *ssa.Program, pkg *ssa.Package, spec HarnessSpec, tier, shard, n int, active map[string]bool) (res *ShardResult) {
+	res = newShardResult(spec.Func, shard, n)
+	t0 := time.Now()
+	defer func() {
+		if r := recover(); r != nil {
+			res.Error = fmt.Sprintf("engine crashed: %v", r)
+			res.Complete = false
+		}
+		res.WallSec = time.Since(t0).Seconds()
+	}()
+	fn := pkg.Func(spec.Func)
+	if fn == nil {
+		res.Error = "no function " + spec.Func + " in " + pkg.Pkg.Path()
+		return res
+	}
+	x := &Exec{prog: prog, harnessPkg: pkg, solver: NewSolver(spec.Solver), funcsSeen: map[string]bool{}, res: res,
+		shard: shard, nshards: n, splitDepth: spec.Split, tier: tier, activeKnown: active, maxSteps: 4000000,
+		globals: map[*ssa.Global]Obj{}, inited: map[string]bool{}, quoted: map[*Str]bool{}}
+	if s := os.Getenv("GOSYM_MAXSTEPS"); s != "" {
+		x.maxSteps, _ = strconv.Atoi(s)
+	}
+	defer x.solver.Close()
+	x.deadline = t0.Add(time.Duration(spec.Timeout[tier]) * time.Second)
+	x.explore(fn)
+	return res
 }
 
 // ---------- known findings ----------
@@ -234,29 +281,9 @@ func runShard(args []string) {
 	if spec == nil {
 		fatal("no harness %q", name)
 	}
-	res := newShardResult(name, shard, n)
-	t0 := time.Now()
-	prog, pkg, loadSec := loadProgram(spec.Pkg)
+	prog, pkgs, loadSec := loadProgram([]string{spec.Pkg})
+	res := exploreShard(prog, pkgs[spec.Pkg], *spec, tier, shard, n, activeKnown())
 	res.LoadSec = loadSec
-	fn := pkg.Func(name)
-	if fn == nil {
-		fatal("no function %s in %s", name, pkg.Pkg.Path())
-	}
-	active := map[string]bool{}
-	for _, k := range loadKnown() {
-		if k.Status == "open" {
-			active[k.ID] = true
-		}
-	}
-	x := &Exec{prog: prog, solver: NewSolver(spec.Solver), funcsSeen: map[string]bool{}, res: res,
-		shard: shard, nshards: n, splitDepth: spec.Split, tier: tier, activeKnown: active, maxSteps: 4000000}
-	if s := os.Getenv("GOSYM_MAXSTEPS"); s != "" {
-		x.maxSteps, _ = strconv.Atoi(s)
-	}
-	x.deadline = t0.Add(time.Duration(spec.Timeout[tier]) * time.Second)
-	x.explore(fn)
-	x.solver.Close()
-	res.WallSec = time.Since(t0).Seconds()
 	b, _ := json.Marshal(res)
 	fmt.Printf("RESULT %s\n", b)
 }
